@@ -736,6 +736,10 @@ func (ctx Ctx) callExpr(s *ast.CallExpr) coq.Expr {
 		return ctx.capExpr(s)
 	}
 	if isIdent(s.Fun, "append") {
+		if len(s.Args) != 2 {
+			ctx.unsupported(s, "append of %d arguments (append one element, or one slice with ..., at a time)", len(s.Args))
+			return nil
+		}
 		elemTy := sliceElem(ctx.typeOf(s.Args[0]).Underlying())
 		if s.Ellipsis == token.NoPos {
 			return coq.NewCallExpr(coq.GallinaIdent("SliceAppend"),
